@@ -139,11 +139,11 @@ impl Engine for C07 {
 
     fn info(&self) -> EngineInfo {
         EngineInfo {
-            rule: "one run = one class on a fresh VM. memory: an allocation-heavy generated family (array/string/tree/record growth, plus generator programs) runs unlimited, then under 1-4 memory limits = baseline + delta; accounted memory is sampled at every check_collect (guarded hook) and at the end. stack: a recursion-heavy family (direct, mutual, data-building, closure-returning) under a sweep of value-stack limits, stack length checked at the end. tail: a tail-call family (self, mutual, through a function argument, through a partial application, in both branches, allocating) for n in {10, 1000, 30000}: the minimal stack limit that lets the run succeed must not depend on n and the peak frame count must be equal. interrupt: Thread::interrupt fired from the debug hook at the k-th CALL event of a terminating or non-terminating loop: Err(Interrupted) must arrive within 3 further CALL events. native: recursion through std.lazy.force (native stack) at depth 10..20000. Non-trivial = a limit error or an interrupt was actually produced; distinct = distinct workload hash.",
+            rule: "one run = one class on a fresh VM. memory: an allocation-heavy generated family (array/string/tree/record growth, plus generator programs) runs unlimited, then under 1-4 memory limits = baseline + delta; accounted memory is sampled at every check_collect (guarded hook) and at the end. stack: a recursion-heavy family (direct, mutual, data-building, closure-returning) under a sweep of value-stack limits, stack length checked at the end. tail: a tail-call family (self, mutual, through a function argument, through a partial application, in both branches, allocating) for n in {10, 1000, 30000}: the minimal stack limit that lets the run succeed must not depend on n and the peak frame count must be equal. interrupt: Thread::interrupt fired from the debug hook at the k-th CALL event of a terminating or non-terminating loop: Err(Interrupted) must arrive within 3 further CALL events. native: recursion through std.lazy.force (native stack) at depth 10..20000. native-data: a value 100..400000 levels deep (left-nested tree, chain of closures) built in constant VM stack by tail calls, collected while the host holds it and after the drop: the collector must not need native stack per level. Non-trivial = a limit error or an interrupt was actually produced; distinct = distinct workload hash.",
             real: vec!["Gc::alloc_owned limit check, Stack frame limit check, compiler's max_stack_size accounting, TailCall frame reuse, interrupt poll in Thread::execute, std.lazy force"],
             stubbed: vec!["executor", "the instant of the interrupt is a CALL-event index decided by the workload"],
             not_exercised: vec!["interrupt from another OS thread (same atomic flag; OS scheduling is C14's subject)"],
-            fault_kinds: vec!["memory_limit", "stack_limit", "interrupt", "native_recursion"],
+            fault_kinds: vec!["memory_limit", "stack_limit", "interrupt", "native_recursion", "native_deep_data"],
             assumptions: vec![
                 "accounted memory is observed at every check_collect and at the end of the run, not at every instruction",
                 "promptness is measured in CALL hook events, not wall time",
@@ -155,7 +155,7 @@ impl Engine for C07 {
     }
 
     fn generate(&self, rng: &mut Rng, _tier: &str) -> Value {
-        let class = *rng.pick(&["memory", "memory", "stack", "stack", "tail", "interrupt", "interrupt", "native"]);
+        let class = *rng.pick(&["memory", "memory", "stack", "stack", "tail", "interrupt", "interrupt", "native", "native-data"]);
         match class {
             "memory" => {
                 let body = if rng.chance(1, 3) {
@@ -188,6 +188,15 @@ impl Engine for C07 {
                     deep_family(rng)
                 };
                 json!({ "class": class, "body": body, "n": *rng.pick(&[50u64, 500, 5000]), "at": rng.below(200), "infinite": infinite })
+            }
+            "native-data" => {
+                // constant VM stack (tail calls), but the *data* is n levels deep: whatever walks it
+                // natively (the collector's mark phase) must not need native stack per level
+                let body = match rng.below(2) {
+                    0 => "(rec let build n acc = if n #Int< 1 then acc else build (n #Int- 1) (Node acc \"\" Tip) in build @N@ Tip)",
+                    _ => "(rec let build n f = if n #Int< 1 then f else build (n #Int- 1) (\\x -> f (x #Int+ 1)) in build @N@ (\\x -> x))",
+                };
+                json!({ "class": class, "body": body, "n": *rng.pick(&[100u64, 3000, 30000, 120000, 400000]) })
             }
             _ => json!({ "class": class, "body": native_family(rng), "n": *rng.pick(&[10u64, 100, 1000, 5000, 20000]) }),
         }
@@ -370,6 +379,34 @@ impl Engine for C07 {
                         return Err(Violation::new("interrupt-sticky", format!("after an interrupt the next evaluation gave `{}`", probe)));
                     }
                 }
+            }
+            "native-data" => {
+                let src = program(body, n);
+                run::count("native_deep_data", 1);
+                run::set_context(format!("a value {} levels deep built with tail calls, then collected", n));
+                let fut = vm.run_expr_async::<OpaqueValue<RootedThread, Hole>>("native-data", &src);
+                match exec::drive(fut, 1_000_000, |_| {}) {
+                    exec::Outcome::Ready(Ok((v, _)), _) => {
+                        // the host holds the value: the mark phase walks all n levels
+                        vm.collect();
+                        drop(v);
+                        vm.collect();
+                        log.push(format!("depth {}: built, collected while rooted, collected after the drop", n));
+                    }
+                    exec::Outcome::Ready(Err(e), _) => {
+                        let out = outcome(Err(e));
+                        log.push(format!("depth {}: {}", n, clip(&out)));
+                        if !(out == "ERR vm:StackOverflow" || out == "ERR vm:OutOfMemory") {
+                            return Err(Violation::new("limit-outcome", format!("building a value {} levels deep gave `{}`", n, clip(&out))));
+                        }
+                    }
+                    _ => return Err(Violation::new("hang", format!("building a value {} levels deep did not complete", n))),
+                }
+                let probe = eval(&vm, "probe", &program("(1 #Int+ 2)", 0));
+                if probe != "OK 3 : Int" {
+                    return Err(Violation::new("limit-outcome", format!("after the deep value the next evaluation gave `{}`", probe)));
+                }
+                nontrivial = n >= 3000;
             }
             _ => {
                 let src = program(body, n);
